@@ -22,6 +22,8 @@ type SetCase struct {
 	Waits    int          `json:"waits"`    // WaitUntilComplete calls
 	WaitConc bool         `json:"waitConc"` // issued from concurrent goroutines
 	Buf      int          `json:"buf"`
+	CancelAt int          `json:"cancelAt,omitempty"` // C07: cancel the set's context when this many traces were observed
+	Shutdown bool         `json:"shutdown,omitempty"` // C07: cancel at the end (if not before) and observe the shutdown
 	Picks    []int        `json:"picks"`
 	Hold     int          `json:"hold"`
 	Gate     string       `json:"gate,omitempty"` // task that is answered only once every catch event listens
@@ -64,20 +66,34 @@ func (c *SetCase) Main() {
 	var idle simlog.Cell
 	var listening simlog.Cell
 	idle.Set(1)
+	var isCancelled simlog.Cell
 	go func() {
 		seq := map[string]int{}
+		n := 0
 		for tr := range traces {
 			u := tracing.Unwrap(tr)
 			k, a, b := describe(u)
-			L.Add("t:"+k, a, b, 0)
+			n++
+			L.Add("t:"+k, a, b, n)
 			if k == "listening" {
 				listening.Add(1)
 			}
 			if tt, ok := u.(bpmn.TaskTrace); ok {
 				seq[a]++
+				if tt.Context().Err() != nil {
+					L.Add("req-cancelled", a, "", seq[a])
+				} else if isCancelled.Get() == 1 {
+					L.Add("req-live-after-cancel", a, "", seq[a])
+				}
 				reqs <- pendingReq{tt: tt, act: a, seq: seq[a]}
 			}
+			if c.CancelAt > 0 && n == c.CancelAt {
+				L.Add("cancel", "", "", n)
+				isCancelled.Set(1)
+				cancel()
+			}
 		}
+		L.Add("obs-closed", "", "", 0)
 	}()
 	go func() {
 		var pending []pendingReq
@@ -111,7 +127,7 @@ func (c *SetCase) Main() {
 			// the gate task is held back until every catch event reported that it listens
 			var cand []int
 			for i, r := range pending {
-				if r.act == c.Gate && int(listening.Get()) < c.NCatch {
+				if r.act == c.Gate && int(listening.Get()) < c.NCatch && isCancelled.Get() == 0 {
 					continue
 				}
 				cand = append(cand, i)
@@ -178,6 +194,23 @@ func (c *SetCase) Main() {
 		}
 	}
 	L.Add("quiescent", "", "", 0)
+	if c.Shutdown {
+		if isCancelled.Get() == 0 {
+			L.Add("cancel", "", "", 0)
+			isCancelled.Set(1)
+			cancel()
+		}
+		close(stop)
+		<-time.After(watchdog)
+		select {
+		case <-ps.Tracer().Done():
+			L.Add("tracer-done", "", "", 0)
+		default:
+			L.Add("tracer-not-done", "", "", 0)
+		}
+		L.Add("end", "", "", 0)
+		return
+	}
 	close(stop)
 	L.Add("end", "", "", 0)
 }
